@@ -44,7 +44,7 @@ import (
 // controller-runtime fake client with the five production field indexes registered. Only the
 // controller finder (workload -> pods, replicas) and the framework handle are harness fakes.
 //
-// input :  maxGlobal maxNode maxNs mmKind mmVal muKind muVal skipExpected
+// input :  16 (stream tag)  maxGlobal maxNode maxNs mmKind mmVal muKind muVal skipExpected
 //          P (ns node wl prio ptime ready forbid)*P   W (replicas isJobKind)*W   J (pod time)*J
 //          K (op a b)*K
 //   kinds: 0 nil, 1 int, 2 percent.  pod ids 1..P, workload ids 1..W (0 none), job ids 1..J
@@ -168,7 +168,10 @@ func vtC16ArbExec(in []int64) []int64 {
 			}
 		}()
 	}
-	pos := 0
+	if len(in) == 0 || in[0] != 16 {
+		return []int64{} // not an input of this stream (e.g. a replay file of another C16 stream)
+	}
+	pos := 1
 	next := func() int64 { v := in[pos]; pos++; return v }
 	maxG, maxNode, maxNs := next(), next(), next()
 	mmKind, mmVal, muKind, muVal, skipExp := next(), next(), next(), next(), next()
@@ -498,7 +501,7 @@ func vtC16ArbGen(r *rand.Rand, idx int) (string, []int64) {
 	}
 	mmK, mmV := iop()
 	muK, muV := iop()
-	in := []int64{lim(), lim(), lim(), mmK, mmV, muK, muV, vtB(r.Intn(3) != 0)}
+	in := []int64{16, lim(), lim(), lim(), mmK, mmV, muK, muV, vtB(r.Intn(3) != 0)}
 	np := 2 + r.Intn(7)
 	nw := r.Intn(4)
 	nns := 1 + r.Intn(2)
